@@ -112,13 +112,17 @@ def _history(draw):
     reach = cmdrun.reachable_zones(i5)
     ops = []
     for _ in range(draw(st.integers(3, 25))):
-        k = draw(st.sampled_from(["push_ac", "push_zone", "push_timer", "call", "call", "call"]))
+        k = draw(st.sampled_from(["push_ac", "push_ac", "push_zone", "push_timer", "error_mode", "call", "call", "call"]))
         if k == "push_ac":
             ops.append(["push_ac", [draw(_ac_common(n)) for n in draw(st.lists(st.sampled_from(ac_ids), min_size=1, max_size=3))]])
         elif k == "push_zone" and zone_ids:
             ops.append(["push_zone", [draw(_zone_common(n)) for n in draw(st.lists(st.sampled_from(zone_ids), min_size=1, max_size=3))]])
         elif k == "push_timer":
             ops.append(["push_timer", {str(n): draw(con.timer_strategy) for n in ac_ids}])
+        elif k == "error_mode":
+            etext = st.text(st.characters(min_codepoint=0x20, max_codepoint=0x7E), min_size=1, max_size=12)
+            ops.append(["error_mode", draw(st.sampled_from(["text", "text", "empty", "silent"])),
+                        draw(st.dictionaries(st.sampled_from([str(n) for n in ac_ids]), etext))])
         else:
             ac = draw(st.sampled_from(ac_ids))
             opts = [
@@ -202,6 +206,11 @@ def run_history(case, stats: Stats | None):
         compare("after init")
         n_rej = n_acc = n_push = 0
         for op in case["ops"]:
+            if op[0] == "error_mode":
+                for gen in (4, 5):
+                    use(gen)
+                    sides[gen][0].do(["error_mode", op[1], dict(op[2])])
+                continue
             if op[0] in ("push_ac", "push_zone", "push_timer"):
                 for gen in (4, 5):
                     use(gen)
